@@ -252,6 +252,17 @@ func getPlacement(start, end pr.GridLine, lines []pr.GridNames) placement {
 	return placement{coord.i, size}
 }
 
+// autoPlacedLine returns the line to use on an axis where the item is
+// auto-placed (no definite line): "If the placement contains only a span for
+// a named line, replace it with a span of 1."
+// https://drafts.csswg.org/css-grid/#grid-placement-errors
+func autoPlacedLine(line pr.GridLine) pr.GridLine {
+	if line.IsSpan() && line.Ident != "" {
+		return pr.GridLine{Tag: pr.Span, Val: 1}
+	}
+	return line
+}
+
 func getSpan(place pr.GridLine) int {
 	// TODO: Handle lines.
 	span := 1
@@ -1012,8 +1023,8 @@ func gridLayout(context *layoutContext, box_ Box, bottomSpace pr.Float, skipStac
 			continue
 		}
 		y, height := rowPlacement[0], rowPlacement[1]
-		columnStart := child.Box().Style.GetGridColumnStart()
-		columnEnd := child.Box().Style.GetGridColumnEnd()
+		columnStart := autoPlacedLine(child.Box().Style.GetGridColumnStart())
+		columnEnd := autoPlacedLine(child.Box().Style.GetGridColumnEnd())
 		x, width := getColumnPlacement(rowPlacement, columnStart, columnEnd, extractNames(columns),
 			childrenPositions, utils.IsIn(flow, "dense")).unpack()
 		childrenPositions[child] = [4]int{x, y, width, height}
@@ -1048,8 +1059,8 @@ func gridLayout(context *layoutContext, box_ Box, bottomSpace pr.Float, skipStac
 	}
 	// 1.3.3 Add columns to accommodate max column span.
 	for _, child := range remainingGridItems {
-		columnStart := child.Box().Style.GetGridColumnStart()
-		columnEnd := child.Box().Style.GetGridColumnEnd()
+		columnStart := autoPlacedLine(child.Box().Style.GetGridColumnStart())
+		columnEnd := autoPlacedLine(child.Box().Style.GetGridColumnEnd())
 		span := 1
 		if columnStart.IsSpan() {
 			span = columnStart.Val
@@ -1082,8 +1093,8 @@ func gridLayout(context *layoutContext, box_ Box, bottomSpace pr.Float, skipStac
 				x, width := columnPlacement[0], columnPlacement[1]
 				cursorX = x
 				// 2. Increment the cursor’s row position.
-				rowStart := child.Box().Style.GetGridRowStart()
-				rowEnd := child.Box().Style.GetGridRowEnd()
+				rowStart := autoPlacedLine(child.Box().Style.GetGridRowStart())
+				rowEnd := autoPlacedLine(child.Box().Style.GetGridRowEnd())
 				var y, height int
 				for y = cursorY; ; y++ {
 					if rowStart.IsAuto() {
@@ -1128,10 +1139,10 @@ func gridLayout(context *layoutContext, box_ Box, bottomSpace pr.Float, skipStac
 				for {
 					// 2. Increment the column position of the cursor.
 					y := cursorY
-					rowStart := child.Box().Style.GetGridRowStart()
-					rowEnd := child.Box().Style.GetGridRowEnd()
-					columnStart = child.Box().Style.GetGridColumnStart()
-					columnEnd = child.Box().Style.GetGridColumnEnd()
+					rowStart := autoPlacedLine(child.Box().Style.GetGridRowStart())
+					rowEnd := autoPlacedLine(child.Box().Style.GetGridRowEnd())
+					columnStart = autoPlacedLine(child.Box().Style.GetGridColumnStart())
+					columnEnd = autoPlacedLine(child.Box().Style.GetGridColumnEnd())
 					hasBroken := false
 					for x := cursorX; x < implicitX2; x++ {
 						var width, height int
@@ -1206,8 +1217,8 @@ func gridLayout(context *layoutContext, box_ Box, bottomSpace pr.Float, skipStac
 				}
 				cursorX = x
 				// 2. Increment the cursor’s row position.
-				rowStart := child.Box().Style.GetGridRowStart()
-				rowEnd := child.Box().Style.GetGridRowEnd()
+				rowStart := autoPlacedLine(child.Box().Style.GetGridRowStart())
+				rowEnd := autoPlacedLine(child.Box().Style.GetGridRowEnd())
 				var y, height int
 				for ; ; cursorY++ {
 					if rowStart.IsAuto() {
@@ -1249,10 +1260,10 @@ func gridLayout(context *layoutContext, box_ Box, bottomSpace pr.Float, skipStac
 				for {
 					// 1. Increment the column position of the cursor.
 					y := cursorY
-					rowStart := child.Box().Style.GetGridRowStart()
-					rowEnd := child.Box().Style.GetGridRowEnd()
-					columnStart = child.Box().Style.GetGridColumnStart()
-					columnEnd = child.Box().Style.GetGridColumnEnd()
+					rowStart := autoPlacedLine(child.Box().Style.GetGridRowStart())
+					rowEnd := autoPlacedLine(child.Box().Style.GetGridRowEnd())
+					columnStart = autoPlacedLine(child.Box().Style.GetGridColumnStart())
+					columnEnd = autoPlacedLine(child.Box().Style.GetGridColumnEnd())
 					hasBroken := false
 					for x := cursorX; x < implicitX2; x++ {
 						var width, height int
